@@ -129,10 +129,15 @@ pub fn run_c11(rep: &Report) -> i32 {
                     let some_walk = t.moves[i].iter().any(|m| walks_into(&pos.make(m)));
                     if avoidable && some_walk {
                         avoid_roots.fetch_add(1, Ordering::Relaxed);
-                        if let Some(j) = infos.iter().rposition(|x| x.depth == 2) {
-                            if let Some((m, c)) = child_of(&run.sent[j]) {
-                                if walks_into(&c) {
-                                    rep.fail("C11", "walks-into-mate-in-one", format!("{} ({}): iteration 2 ends with {} after which the opponent mates at once, although it can be avoided", root.name, name, m.uci()), c11_case(&root, 2, &infos[j].raw));
+                        // the move iteration 2 ends with, and every move handed back later (the I/O thread plays
+                        // the latest move it holds when the clock runs out, so each of them can be the move played)
+                        let last2 = infos.iter().rposition(|x| x.depth == 2);
+                        for j in 0..infos.len() {
+                            if Some(j) == last2 || infos[j].depth >= 3 {
+                                if let Some((m, c)) = child_of(&run.sent[j]) {
+                                    if walks_into(&c) {
+                                        rep.fail("C11", if infos[j].depth >= 3 { "walks-into-mate-in-one/handed-back-after-iteration-2" } else { "walks-into-mate-in-one" }, format!("{} ({}): in iteration {} the search hands back {} after which the opponent mates at once, although it can be avoided and iteration 2 has finished", root.name, name, infos[j].depth, m.uci()), c11_case(&root, depth, &infos[j].raw));
+                                    }
                                 }
                             }
                         }
@@ -184,7 +189,105 @@ pub fn run_c11(rep: &Report) -> i32 {
             }
         });
     }
-    rep.add("positions_searched", searched.load(Ordering::Relaxed));
+    // ---- family B: back-rank positions with a loose piece as bait (mate in one to give or to walk into)
+    let fam_b = back_rank_family();
+    let b_searched = AtomicU64::new(0);
+    let b_mate1 = AtomicU64::new(0);
+    let b_avoid = AtomicU64::new(0);
+    let b_changed = AtomicU64::new(0);
+    {
+        let idx = AtomicUsize::new(0);
+        let stride = if quick { 5 } else { 1 };
+        std::thread::scope(|s| {
+            for _ in 0..threads() {
+                s.spawn(|| loop {
+                    let i = idx.fetch_add(1, Ordering::Relaxed);
+                    if i >= fam_b.len() {
+                        break;
+                    }
+                    if i % stride != 0 {
+                        continue;
+                    }
+                    let pos = &fam_b[i];
+                    let legal = pos.legal_moves();
+                    if legal.is_empty() {
+                        continue;
+                    }
+                    let root = fresh_root(pos, &h);
+                    let d: u8 = if quick { 3 } else { 4 };
+                    let run = run_search(&root.board, &root.table, None, d);
+                    b_searched.fetch_add(1, Ordering::Relaxed);
+                    nodes.fetch_add(run.queries, Ordering::Relaxed);
+                    if run.panicked.is_some() {
+                        rep.fail("C07", "search-panic", format!("{}: {:?}", root.name, run.panicked), c11_case(&root, d, ""));
+                        continue;
+                    }
+                    let facts = RootFacts { legal: legal.clone(), successors: Vec::new() };
+                    check_infos(rep, &root, &facts, &run, None, d, &infos_n);
+                    let infos: Vec<Info> = run.infos.iter().filter_map(|l| parse_info(l).ok()).collect();
+                    if infos.len() != run.sent.len() {
+                        continue;
+                    }
+                    let walks_into = |c: &Pos| c.legal_moves().iter().any(|m2| c.make(m2).is_checkmate());
+                    let mate1 = legal.iter().any(|m| pos.make(m).is_checkmate());
+                    if mate1 {
+                        b_mate1.fetch_add(1, Ordering::Relaxed);
+                        if let Some(j) = infos.iter().rposition(|x| x.depth == 1) {
+                            if let Some(m) = move_of_successor(pos, &run.sent[j]) {
+                                if !pos.make(&m).is_checkmate() {
+                                    rep.fail("C11", "mate-in-one-not-played", format!("{}: mate in one exists, iteration 1 ends with {} which does not mate", root.name, m.uci()), c11_case(&root, 1, &infos[j].raw));
+                                }
+                            }
+                        }
+                    }
+                    let avoidable = legal.iter().any(|m| !walks_into(&pos.make(m)));
+                    let some_walk = legal.iter().any(|m| walks_into(&pos.make(m)));
+                    if avoidable && some_walk && !mate1 {
+                        b_avoid.fetch_add(1, Ordering::Relaxed);
+                        let last1 = infos.iter().rposition(|x| x.depth == 1);
+                        if let Some(j) = last1 {
+                            if let Some(m) = move_of_successor(pos, &run.sent[j]) {
+                                if walks_into(&pos.make(&m)) {
+                                    b_changed.fetch_add(1, Ordering::Relaxed); // iteration 1 liked the blunder: iteration 2 has to correct it
+                                }
+                            }
+                        }
+                        let last2 = infos.iter().rposition(|x| x.depth == 2);
+                        for j in 0..infos.len() {
+                            if Some(j) == last2 || infos[j].depth >= 3 {
+                                if let Some(m) = move_of_successor(pos, &run.sent[j]) {
+                                    if walks_into(&pos.make(&m)) {
+                                        rep.fail("C11", if infos[j].depth >= 3 { "walks-into-mate-in-one/handed-back-after-iteration-2" } else { "walks-into-mate-in-one" }, format!("{}: in iteration {} the search hands back {} after which the opponent mates at once, although it can be avoided and iteration 2 has finished", root.name, infos[j].depth, m.uci()), c11_case(&root, d, &infos[j].raw));
+                                    }
+                                }
+                            }
+                        }
+                    }
+                    // mate announcements of one move are checked against the rules directly
+                    for (j, info) in infos.iter().enumerate() {
+                        if let (Some(nm), Some(m)) = (info.mate, move_of_successor(pos, &run.sent[j])) {
+                            mate_claims.fetch_add(1, Ordering::Relaxed);
+                            let child = pos.make(&m);
+                            if nm == 1 && !child.is_checkmate() {
+                                rep.fail("C11", "false-mate-announcement/iteration-1", format!("{}: '{}' but {} does not mate", root.name, info.raw, m.uci()), c11_case(&root, d, &info.raw));
+                            }
+                            if nm == -1 && !walks_into(&child) {
+                                rep.fail("C11", "false-mated-announcement", format!("{}: '{}' but after {} there is no mate in one", root.name, info.raw, m.uci()), c11_case(&root, d, &info.raw));
+                            }
+                            if child.is_stalemate() {
+                                rep.fail("C11", "stalemate-reported-as-mate", format!("{}: '{}'", root.name, info.raw), c11_case(&root, d, &info.raw));
+                            }
+                        }
+                    }
+                });
+            }
+        });
+    }
+    rep.add("back_rank_family_positions_searched", b_searched.load(Ordering::Relaxed));
+    rep.add("back_rank_family_roots_with_mate_in_one", b_mate1.load(Ordering::Relaxed));
+    rep.add("back_rank_family_roots_where_a_blunder_into_mate_is_possible_and_avoidable", b_avoid.load(Ordering::Relaxed));
+    rep.add("back_rank_family_roots_where_iteration_1_prefers_the_blunder", b_changed.load(Ordering::Relaxed));
+    rep.add("positions_searched", searched.load(Ordering::Relaxed) + b_searched.load(Ordering::Relaxed));
     rep.add("mate_announcements_checked", mate_claims.load(Ordering::Relaxed));
     rep.add("mated_announcements_checked", neg_claims.load(Ordering::Relaxed));
     rep.add("roots_with_mate_in_one", mate1_roots.load(Ordering::Relaxed));
@@ -195,7 +298,36 @@ pub fn run_c11(rep: &Report) -> i32 {
     rep.assume("retrograde tables over the rules oracle are exact (validated by the well-known maxima 10 / 16 moves and by forward search at distance <= 2)");
     rep.assume("an info line inside an iteration states the value of the move it names first; the last line of an iteration is the iteration's verdict on the root");
     let rule = format!("every legal non-terminal position of the complete KQK and KRK families{} searched by the real get_best_move to the end of iteration {}; every info line judged against exact distance-to-mate tables", if quick { " with the white king in the a1-d1-d4 triangle" } else { "" }, depth);
-    rep.finish(searched.load(Ordering::Relaxed), nodes.load(Ordering::Relaxed), rep.get("tb_forward_validations"), true, &rule)
+    let rule = format!("{}; plus the back-rank family (kings behind three pawns, one rook each on any back-rank file a-f, one loose black knight/bishop/pawn on any square of ranks 3-6, both sides to move{}) searched to iteration {}: mate in one played, no blunder into mate in one handed back once iteration 2 has finished", rule, if quick { ", every 5th position" } else { "" }, if quick { 3 } else { 4 });
+    rep.finish(searched.load(Ordering::Relaxed) + b_searched.load(Ordering::Relaxed), nodes.load(Ordering::Relaxed), rep.get("tb_forward_validations"), true, &rule)
+}
+
+/// kings behind three pawns, a rook each on the back rank, a loose black piece as bait
+fn back_rank_family() -> Vec<Pos> {
+    let mut out = Vec::new();
+    let base = Pos::from_fen("6k1/5ppp/8/8/8/8/5PPP/6K1 w - - 0 1").unwrap();
+    for wr in 0..6u8 {
+        for br in 0..6u8 {
+            for bait in [rules::N, rules::B, rules::P] {
+                for sq in 16..48u8 {
+                    let mut p = base;
+                    p.b[wr as usize] = rules::pc(rules::WHITE, rules::R);
+                    p.b[(56 + br) as usize] = rules::pc(rules::BLACK, rules::R);
+                    if p.b[sq as usize] != rules::EMPTY {
+                        continue;
+                    }
+                    p.b[sq as usize] = rules::pc(rules::BLACK, bait);
+                    for stm in [rules::WHITE, rules::BLACK] {
+                        p.stm = stm;
+                        if p.is_legal_position() {
+                            out.push(p);
+                        }
+                    }
+                }
+            }
+        }
+    }
+    out
 }
 
 // ================================================================================================ C12
